@@ -357,12 +357,32 @@ struct World {
     std::vector<uint8_t *> rxbuf;        // daemon-mode buffers, malloc(MTU) each
     std::vector<size_t> rxcap;
     Bytes icon, friendly;                // backing store for vp_global pointers
-    World() { br_reset_iface_states(); vp_reset_all(); }
-    ~World() {
-        for (auto p : rxbuf) free(p);
+    bool torn_down = false;
+    World() {
         br_reset_iface_states();
+        if (br_reset_level() == 0) vp_ledger_disown_all();   // fallback mode: the core still references the records of earlier cases
         vp_reset_all();
     }
+    // Forget everything the core holds for this world's interfaces: what a record retains (observations, cached icon) is released
+    // through the public behaviour (a topology Reset per interface, all faults cleared), then the records themselves are dropped.
+    void teardown_core() {
+        if (torn_down) return;
+        torn_down = true;
+        vp_fail_alloc_at(0); vp_fail_alloc_from(0); vp_fail_send_at(0); vp_fail_send_always(0);
+        vp_log_enable(0);
+        static const uint8_t reset_frame[32] = {0xFF, 0xFF, 0xFF, 0xFF, 0xFF, 0xFF, 2, 0, 0, 0, 0, 0xFE, 0x88, 0xD9, 1, 0, 0, 8,
+                                                0xFF, 0xFF, 0xFF, 0xFF, 0xFF, 0xFF, 2, 0, 0, 0, 0, 0xFE, 0, 0};
+        for (size_t i = 0; i < ifs.size(); i++) { ifs[i]->fail = 0; memset(rxbuf[i], 0, rxcap[i]); memcpy(rxbuf[i], reset_frame, 32); br_parse_frame(rxbuf[i], ifs[i].get()); }
+        br_reset_iface_states();
+    }
+    ~World() {
+        teardown_core();
+        for (auto p : rxbuf) free(p);
+        if (br_reset_level() == 0) { for (auto &u : ifs) (void)u.release(); vp_ledger_disown_all(); }   // fallback: a context address must never be reused, records stay referenced
+        vp_reset_all();
+    }
+    // blocks that legitimately stay allocated after teardown-style cleanup: none, or one record per interface in fallback mode
+    size_t leftover_records() const { return br_reset_level() == 0 ? ifs.size() : 0; }
     World(const World &) = delete;
     int add_if(const IfCfg &c) {
         ifs.emplace_back(new vif);
